@@ -735,9 +735,9 @@ fn main() {
     cx.assume("tokio's scheduler and select! branch randomisation are not owned by the harness: interleavings are sampled (repetitions), not enumerated");
     cx.assume("a stop/exec that does not return within the budget (400k scheduler turns / 60 s) is a hang: counted, makes the run inconclusive, never a violation");
     cx.assume("generated actors satisfy the premise: setup/run/cleanup always terminate; only state() may block forever");
-    let n1 = cx.tier.pick(6_000, 200_000);
-    let n2 = cx.tier.pick(1_500, 40_000);
-    let rm = cx.tier.pick(4, 20);
+    let n1 = cx.tier.pick(6_000, 100_000);
+    let n2 = cx.tier.pick(1_500, 15_000);
+    let rm = cx.tier.pick(4, 12);
     cx.prop(
         "current-thread-yield-schedules",
         PropCfg::new(n1).shrink(300),
